@@ -405,7 +405,7 @@ func cmdCheck(args []string) int {
 	}
 	prelude := c.prelude()
 	genS := time.Since(t0).Seconds() - loadS
-	workDir := filepath.Join(verifDir, ".work", id)
+	workDir := filepath.Join(verifDir, ".work", id+os.Getenv("VERIF_WORKSUFFIX"))
 	os.RemoveAll(workDir)
 	want := 1
 	if *tier == "thorough" {
@@ -476,7 +476,7 @@ func cmdCheck(args []string) int {
 	}
 	sort.Strings(vacuous)
 	exit := 0
-	replayDir := filepath.Join(verifDir, "replays", id)
+	replayDir := filepath.Join(verifDir, "replays", id+os.Getenv("VERIF_WORKSUFFIX"))
 	os.RemoveAll(replayDir)
 	var violations, knownHits []string
 	for _, o := range failed {
@@ -594,7 +594,7 @@ func (r *fnReport) coverQuery(cp coverPoint) string {
 }
 
 func reportBroken(id, tier string, seed int, msg string, t0 time.Time) int {
-	replayDir := filepath.Join(verifDir, "replays", id)
+	replayDir := filepath.Join(verifDir, "replays", id+os.Getenv("VERIF_WORKSUFFIX"))
 	os.MkdirAll(replayDir, 0o755)
 	path := filepath.Join(replayDir, "binding.json")
 	js, _ := json.MarshalIndent(map[string]interface{}{"property": id, "obligation": "#binding", "error": msg}, "", " ")
